@@ -673,3 +673,13 @@ WALK_NOTE = (" Translator tie (harness/py2coq_walk.py; loop state in coq/theorie
 for _p in ("C01", "C03"):
     CLAIMS[_p]["ties"] += (_walk_tie,)
     CLAIMS[_p]["text"] += WALK_NOTE
+
+
+def _hook_sweep_c13(seed, tier, cov):
+    import translated
+    return translated.hook_sweep_c13(seed, tier, cov)
+
+
+CLAIMS["C13"]["extra_checks"] = _hook_sweep_c13
+CLAIMS["C13"]["text"] += (" A directed search interleaves registrations and occurrences on a real Simulator (a hook registered after an occurrence at some time must be called at "
+                          "every later matching occurrence, that same time included; each matching hook exactly once, untimed first, in registration order).")
